@@ -128,10 +128,10 @@ def main(spec, argv):
             raise Broken('proof audit failed: ' + '; '.join(notes))
         core.check_pins(prop)
         if tier == 'thorough':
-            rc, o, e = core.sh(['coqchk', '-silent', '-o', '-Q', 'theories', 'SE', 'SE.props.' + prop], cwd=core.COQ, timeout=3000)
-            ctx['coqchk'] = (o + e)[-1500:]
-            if rc != 0:
-                raise Broken('coqchk rejects props/%s.vo' % prop, (o + e)[-3000:])
+            summary, rejected = core.coqchk_closure(prop)
+            ctx['coqchk'] = summary
+            if rejected:
+                raise Broken('coqchk rejects %s (dependency closure of props/%s.vo)' % (', '.join(m for m, _ in rejected[:5]), prop), rejected[0][1])
         # 2. executable model
         core.build_driver()
         # 3. implementation from the current tree
